@@ -670,7 +670,7 @@ var extKinds = [][3]string{{"int32", "string", "msg"}, {"enum", "bytes", "sint64
 
 var extNumber = map[string]int{"int32": 100, "int64": 101, "uint64": 102, "sint32": 103, "sint64": 104, "fixed32": 105, "fixed64": 106, "bool": 107,
 	"string": 108, "bytes": 109, "double": 110, "float": 111, "uint32": 112, "sfixed32": 113, "sfixed64": 114, "msg": 120, "enum": 121,
-	"int32@2": 150, "string@2": 151, "int64@f": 160, "msg@f": 161, "int32@n": 170, "int32@d": 180, "string@d": 181}
+	"int32@2": 150, "string@2": 151, "int64@f": 160, "msg@f": 161, "int32@n": 170, "int32@d": 180, "string@d": 181, "string@m": 182}
 
 // extGoValue builds the Go value SetExtension expects for (kind, value id) on the given flavour.
 func (d *Driver) extGoValue(ti TypeInfo, ext interface{}, kind string, id int) interface{} {
